@@ -534,7 +534,7 @@ CSRMatrix CSRMatrix::jacobian(const DenseMatrix &A, const DenseMatrix &x,
 void csr_matmat_pass1(const CSRMatrix &A, const CSRMatrix &B, CSRMatrix &C)
 {
     // method that uses O(n) temp storage
-    std::vector<unsigned> mask(A.col_, -1);
+    std::vector<unsigned> mask(B.col_, -1);
     C.p_[0] = 0;
 
     unsigned nnz = 0;
@@ -569,8 +569,8 @@ void csr_matmat_pass1(const CSRMatrix &A, const CSRMatrix &B, CSRMatrix &C)
 // row pointer Cp[] computed in Pass 1.
 void csr_matmat_pass2(const CSRMatrix &A, const CSRMatrix &B, CSRMatrix &C)
 {
-    std::vector<int> next(A.col_, -1);
-    vec_basic sums(A.col_, zero);
+    std::vector<int> next(B.col_, -1);
+    vec_basic sums(B.col_, zero);
 
     unsigned nnz = 0;
 
